@@ -934,6 +934,7 @@ func (w *World) onPanicObserved(err error) {
 		cls = "out-of-range"
 	}
 	w.violate("C12", "recovered-panic/"+cls, "a supervised loop recovered from a panic: %s", firstLine(s))
+	w.violate("C18", "leader-computation-panicked/"+cls, "a supervised loop recovered from a panic while handling a message with an extreme view: %s", firstLine(s))
 }
 
 func (w *World) onBubbleLeak(msg string) {
